@@ -26,8 +26,8 @@ def owners(op, clause, e=None, nbuf0=3):
         o |= {"C03", "C10"}
     if op == "set" and clause.startswith("set:other-object-changed"):
         o |= {"C10", "C03"}
-    if clause.startswith("free:"):
-        o |= {"C10", "C08", "C03"}       # an assignment released storage another element / reference still uses
+    if clause.startswith("free:") or clause.startswith("alloc:two-objects-at-one-address"):
+        o |= {"C10", "C08", "C03"}       # an assignment released storage another element / reference still uses (and it was handed out again)
     if op == "copy" and clause.startswith("size:"):
         o |= {"C05", "C09"}              # the copy's stored size is not its extent
     if clause.startswith("alloc:") and e is not None and any(a[0] > nbuf0 for a in e.get("alloc", [])):
@@ -575,7 +575,7 @@ def prog_update(w, rng):
 PROGRAMS = {
     "C01": lambda w, rng: (prog_defaults if rng.random() < 0.08 else prog_repeat if rng.random() < 0.2 else prog_construct)(w, rng),
     "C05": lambda w, rng: (prog_defaults if rng.random() < 0.08 else prog_construct if rng.random() < 0.6 else prog_copy)(w, rng),      # copy-construction writes objects too
-    "C03": lambda w, rng: (prog_intlen if rng.random() < 0.06 else prog_err if rng.random() < 0.1 else (prog_construct if rng.random() < 0.4 else prog_set))(w, rng),
+    "C03": lambda w, rng: (prog_intlen if rng.random() < 0.06 else prog_err if rng.random() < 0.1 else prog_copy if rng.random() < 0.15 else (prog_construct if rng.random() < 0.4 else prog_set))(w, rng),
     "C06": lambda w, rng: (prog_construct if rng.random() < 0.2 else (prog_view_copy if rng.random() < 0.2 else (prog_update if rng.random() < 0.2 else (prog_set if rng.random() < 0.6 else prog_copy))))(w, rng),
     "C10": lambda w, rng: (prog_update if rng.random() < 0.1 else prog_set)(w, rng),
     "C08": lambda w, rng: (prog_repeat if rng.random() < 0.15 else (prog_copy if rng.random() < 0.15 else prog_refs))(w, rng),
